@@ -362,7 +362,7 @@ func (c *XAConn) ShouldBeHeld() bool {
 
 func (c *XAConn) checkTimeout(ctx context.Context, now time.Time) error {
 	if now.Sub(c.branchRegisterTime) > xaConnTimeout {
-		c.XaRollback(ctx, c.xaBranchXid)
+		// the caller (Commit) rolls the branch back through commitErrorHandle
 		return fmt.Errorf("XA branch timeout error xid:%s", c.txCtx.XID)
 	}
 	return nil
